@@ -32,6 +32,7 @@ type VC struct {
 	contracts      []*Contract
 	lemmas         []*Lemma
 	ifaceContracts map[string]*Contract
+	ifaceFuncs     map[string]*FuncInfo
 	guards         map[string]*Guard
 	errIDs         map[string]int64
 	typeIDs        map[string]int64
@@ -141,6 +142,7 @@ func setupUniverse(timeT types.Type) {
 	for _, n := range []string{"sealed", "opened"} {
 		types.Universe.Insert(types.NewFunc(token.NoPos, nil, n, types.NewSignatureType(nil, nil, nil, nil, types.NewTuple(v("", bt)), false)))
 	}
+	types.Universe.Insert(types.NewFunc(token.NoPos, nil, "calls", types.NewSignatureType(nil, nil, nil, types.NewTuple(v("name", types.Typ[types.String])), types.NewTuple(v("", it)), false)))
 	types.Universe.Insert(types.NewFunc(token.NoPos, nil, "iter", types.NewSignatureType(nil, nil, nil, nil, types.NewTuple(v("", it)), false)))
 	for _, n := range []string{"floordiv", "floormod"} {
 		types.Universe.Insert(types.NewFunc(token.NoPos, nil, n, types.NewSignatureType(nil, nil, nil, types.NewTuple(v("a", mathintType), v("b", mathintType)), types.NewTuple(v("", mathintType)), false)))
@@ -165,7 +167,7 @@ func setupUniverse(timeT types.Type) {
 }
 
 func loadVC(patterns []string) (*VC, error) {
-	vc := &VC{pkgs: map[string]*packages.Package{}, funcs: map[string]*FuncInfo{}, byShort: map[string]*FuncInfo{}, ifaceContracts: map[string]*Contract{},
+	vc := &VC{pkgs: map[string]*packages.Package{}, funcs: map[string]*FuncInfo{}, byShort: map[string]*FuncInfo{}, ifaceContracts: map[string]*Contract{}, ifaceFuncs: map[string]*FuncInfo{},
 		errIDs: map[string]int64{}, typeIDs: map[string]int64{}, guards: map[string]*Guard{}}
 	vc.fset = token.NewFileSet()
 	env := []string{}
@@ -312,6 +314,11 @@ func (vc *VC) compileContract(fi *FuncInfo) {
 	for _, sp := range con.Spawns {
 		all = append(all, sp...)
 	}
+	if fi.Decl.Body != nil {
+		for _, cs := range con.CallSites {
+			all = append(all, cs...)
+		}
+	}
 	var ords []string
 	for o := range con.Loops {
 		ords = append(ords, o)
@@ -355,11 +362,43 @@ func (vc *VC) bindIfaceContract(p *packages.Package, c *Contract) bool {
 	}
 	for k := 0; k < it.NumMethods(); k++ {
 		m := it.Method(k)
-		if m.Name() == mn {
-			vc.ifaceContracts[funcKey(m)] = c
-			c.Trusted = true
-			return true
+		if m.Name() != mn {
+			continue
 		}
+		// find the method's field in the interface type declaration (for parameter names and type texts)
+		var ft *ast.FuncType
+		var file *ast.File
+		for _, f := range p.Syntax {
+			ast.Inspect(f, func(n ast.Node) bool {
+				ts, ok := n.(*ast.TypeSpec)
+				if !ok || ts.Name.Name != tn {
+					return true
+				}
+				if itf, ok := ts.Type.(*ast.InterfaceType); ok {
+					for _, fld := range itf.Methods.List {
+						for _, nm := range fld.Names {
+							if nm.Name == mn {
+								ft, _ = fld.Type.(*ast.FuncType)
+								file = f
+							}
+						}
+					}
+				}
+				return false
+			})
+		}
+		if ft == nil {
+			return false
+		}
+		decl := &ast.FuncDecl{Name: ast.NewIdent(mn), Type: ft}
+		decl.Name.NamePos = ft.Pos()
+		fi := &FuncInfo{Key: funcKey(m), Short: p.Types.Name() + "." + c.Target, Decl: decl, Pkg: p, Obj: m, Con: c, File: file}
+		vc.ifaceContracts[funcKey(m)] = c
+		vc.ifaceFuncs[funcKey(m)] = fi
+		c.Trusted = true
+		c.iface = true
+		vc.compileContract(fi)
+		return true
 	}
 	return false
 }
@@ -530,7 +569,7 @@ func (vc *VC) verifyFunc(fi *FuncInfo) (res *FuncResult) {
 		}
 		ex.bindResults(fi, bind, r.vals)
 		for i, c := range fi.Con.Ensures {
-			g := ex.evalClause(c, r.st, f0.oldSt, bind)
+			g := ex.simplifyGoal(r.st, ex.evalClause(c, r.st, f0.oldSt, bind))
 			label := c.Label
 			if label == "" {
 				label = fmt.Sprintf("#%d", i)
@@ -671,9 +710,39 @@ type Guard struct {
 func (ex *Exec) acquireGuarded(st *State, name string, n ast.Node) {}
 func (ex *Exec) releaseGuarded(st *State, name string, n ast.Node) {}
 
+// callIfaceModular: a call through an interface whose method carries an (assumed) contract.
+// Every such call also increments the ghost counter calls("<Iface>.<Method>").
 func (ex *Exec) callIfaceModular(con *Contract, fn *types.Func, recv *Value, args []Value, st *State, call *ast.CallExpr) []Value {
-	unsupp("interface method contracts not yet supported")
-	return nil
+	fi := ex.vc.ifaceFuncs[funcKey(fn)]
+	ex.note("interface method contract (assumed for every implementation): " + fi.Short)
+	res := ex.callModular(fi, recv, args, st, call)
+	ex.bumpCalls(st, ifaceCounterName(fi))
+	return res
+}
+
+func ifaceCounterName(fi *FuncInfo) string {
+	// "base/timebase.(SystemClock).Sleep" -> "SystemClock.Sleep"
+	t := fi.Con.Target
+	t = strings.TrimPrefix(t, "(")
+	t = strings.Replace(t, ").", ".", 1)
+	return strings.TrimPrefix(t, "*")
+}
+
+func (ex *Exec) bumpCalls(st *State, name string) {
+	cur := ex.callsCounter(st, name)
+	st.ghost["calls:"+name] = scalarV(types.Typ[types.Int], mkArith("add", cur.scalar(), mkInt(sortInt, 1)))
+}
+
+// callsCounter: ghost counter of calls through an interface method on this path. It starts at 0 at function entry;
+// after a loop head (or any other havoc of ghost counters) a counter that was not materialised yet is arbitrary.
+func (ex *Exec) callsCounter(st *State, name string) Value {
+	k := "calls:" + name
+	if v, ok := st.ghost[k]; ok {
+		return v
+	}
+	v := scalarV(types.Typ[types.Int], mkInt(sortInt, 0))
+	st.ghost[k] = v
+	return v
 }
 
 // ghostType resolves the Go type text of a ghost parameter in the scope of the function's file.
